@@ -107,6 +107,12 @@ def r11a(ctx: Context) -> None:
                     left_is_line, right_is_line = mentions(left, line_names, "line_number"), mentions(right, line_names, "line_number")
                     if isinstance(op, ast.In) and left_is_line:
                         kinds.add("table")
+                    elif isinstance(op, ast.In) and right_is_line and mentions(left, id_names, "rule_id"):
+                        # the rule id is looked up in what the table holds for this line: table.get(line, ()) / table[line]
+                        lookups = [sub for sub in ast.walk(right) if (isinstance(sub, ast.Subscript) and mentions(sub.slice, line_names, "line_number"))
+                                   or (isinstance(sub, ast.Call) and isinstance(sub.func, ast.Attribute) and sub.func.attr == "get" and sub.args and mentions(sub.args[0], line_names, "line_number"))]
+                        if lookups:
+                            kinds.add("table")
                     elif isinstance(op, (ast.Lt, ast.LtE, ast.Gt, ast.GtE)) and left_is_line != right_is_line:
                         ascending = isinstance(op, (ast.Lt, ast.LtE))
                         side = "lower" if right_is_line == ascending else "upper"
